@@ -7,16 +7,16 @@ From Ford Require Import Base.Str Base.StrFacts Gen.Intrinsics Sem.Calls Sem.Cal
 (* ------------------------------------------------------------------ recorded once *)
 Lemma line_step_inv a calls line a' calls' : calls_inv calls -> line_step (a, calls) line = Some (a', calls') -> calls_inv calls'.
 Proof.
-  intros Hinv H. unfold line_step in H.
+  intros Hinv H. unfold line_step, line_step_gen in H.
   destruct (format_re line); [injection H as _ <-; exact Hinv|].
   destruct (end_associate_re line).
   { destruct (rev a); [discriminate|]. injection H as _ <-. exact Hinv. }
   destruct (associate_re line) as [body|].
   { destruct (strip_paren body 0) as [|first rest0]; [discriminate|]. destruct (add_batch a (paren_split comma first)); [|discriminate].
-    injection H as _ <-. unfold add_calls. now apply append_calls_inv. }
+    injection H as _ <-. unfold add_calls, add_gen. now apply append_calls_inv. }
   destruct (goto_rewrite false [] line) as [line'|].
-  { destruct (call_gate line'); injection H as _ <-; [unfold add_calls; now apply append_calls_inv|exact Hinv]. }
-  destruct (call_gate line); injection H as _ <-; [unfold add_calls; now apply append_calls_inv|exact Hinv].
+  { destruct (call_gate line'); injection H as _ <-; [unfold add_calls, add_gen; now apply append_calls_inv|exact Hinv]. }
+  destruct (call_gate line); injection H as _ <-; [unfold add_calls, add_gen; now apply append_calls_inv|exact Hinv].
 Qed.
 
 Lemma run_stmts_inv stmts : forall a calls a' calls', calls_inv calls ->
@@ -41,8 +41,9 @@ Proof.
     assert (H0 : calls_inv []) by (split; [constructor|intros ch []]).
     destruct (run_stmts_inv stmts [] [] a c H0 E) as [Hn Hk]. split; [exact Hn|].
     intros ch Hin. specialize (Hk ch Hin). unfold keep in Hk. now apply negb_true_iff in Hk.
-  - intros tb l. unfold recorded. destruct (unit_raw_calls stmts); [|discriminate]. intros H. injection H as <-.
-    apply resolve_loop_nodup. constructor.
+  - intros tb l. unfold recorded. destruct (unit_raw_calls stmts); [|discriminate].
+    destruct (unit_named_calls stmts); [|discriminate]. intros H. injection H as <-.
+    apply resolve_named_nodup, resolve_loop_nodup. constructor.
 Qed.
 
 (* ------------------------------------------------------------------ the full statement and its refutations *)
@@ -78,14 +79,19 @@ Definition tb0 (scope : labels) : symtab := mk_symtab scope [] [].
 
 (* formerly region 2: de-duplication on the last component before resolution *)
 Definition w_same_last_tb : symtab :=
-  mk_symtab [(s "a", EVar (s "t1") true); (s "b", EVar (s "t2") true)]
+  mk_symtab [(s "a", EVar (s "t1") true false); (s "b", EVar (s "t2") true false)]
             [(s "t1", [(s "run", EProc (s "m.t1.run"))]); (s "t2", [(s "run", EProc (s "m.t2.run"))])] [].
 Definition w_same_last : list stmt :=
   [SCall None (DPart0 (s "a") (DLastA (s "run") (ELit []))); SCall None (DPart0 (s "b") (DLastA (s "run") (ELit [])))].
 
-(* region 3: a user procedure spelled like an entry of INTRINSICS *)
-Definition w_intrinsic_tb : symtab := tb0 [(s "wait", EProc (s "m.wait"))].
-Definition w_intrinsic : list stmt := [SCall None (DLastA (s "wait") (num "3"))].
+(* formerly region 3: user procedures spelled like entries of INTRINSICS *)
+Definition w_intrinsic_tb : symtab :=
+  tb0 [(s "wait", EProc (s "m.wait")); (s "system", EFunc (s "m.system") (s "integer")); (s "i", EVar (s "integer") true false)].
+Definition w_intrinsic : list stmt :=
+  [SCall None (DLastA (s "wait") (num "3")); SForm None true (FAssign (name "i") (ref1 "system" (num "2")))].
+
+(* region 3: a statement keyword followed by "(" that is also the name of a procedure the unit sees *)
+Definition w_keyword : list stmt := [SForm None true (FIo KWait (num "10"))].
 
 (* region 4: labelled CALL without argument list *)
 Definition w_labelled_tb : symtab := tb0 [(s "sub0", EProc (s "m.sub0"))].
@@ -96,7 +102,7 @@ Definition w_format : list stmt :=
   [SFormat (s "100") false (pt_app (pt_str (s "i5, 3")) (PGrp (pt_str (s "f8.2, a")) PNil))].
 
 (* region 6: ASSOCIATE selector that is an expression *)
-Definition w_assoc_expr_tb : symtab := tb0 [(s "arr", EVar (s "integer") true); (s "i", EVar (s "integer") true)].
+Definition w_assoc_expr_tb : symtab := tb0 [(s "arr", EVar (s "integer") true false); (s "i", EVar (s "integer") true false)].
 Definition w_assoc_expr : list stmt :=
   [SAssoc true [(s "tmp", EBin (ref1 "arr" (EBin (num "1") (s ":") (num "3"))) (s " + ") (num "1"))];
    SForm None true (FAssign (name "i") (ref1 "tmp" (num "2")));
@@ -111,13 +117,14 @@ Definition w_crash : list stmt :=
    SEndAssoc].
 
 (* region 9: the GO TO pattern swallows the statement *)
-Definition w_goto_tb : symtab := tb0 [(s "f", EFunc (s "m.f") (s "integer")); (s "i", EVar (s "integer") true)].
+Definition w_goto_tb : symtab := tb0 [(s "f", EFunc (s "m.f") (s "integer")); (s "i", EVar (s "integer") true false)].
 Definition w_goto : list stmt := [SGoto [s "10"; s "20"] (ref1 "f" (name "i"))].
 
 (* ---- still open ---- *)
-Theorem refuted_intrinsic_named : refutes w_intrinsic_tb w_intrinsic /\ region_intrinsic_named w_intrinsic_tb w_intrinsic = true /\
-  map render_stmt w_intrinsic = [s "call wait(3)"] /\
-  recorded w_intrinsic_tb (map render_stmt w_intrinsic) = Some [] /\ calls_of w_intrinsic_tb w_intrinsic = [s "m.wait"].
+Theorem refuted_keyword_named : refutes w_intrinsic_tb w_keyword /\ region_keyword_named w_intrinsic_tb = true /\
+  region_of w_intrinsic_tb w_intrinsic_tb w_keyword = 3 /\ region_of w_intrinsic_tb w_intrinsic_tb w_intrinsic = 0 /\
+  map render_stmt w_keyword = [s "wait (10)"] /\
+  recorded w_intrinsic_tb (map render_stmt w_keyword) = Some [s "m.wait"] /\ calls_of w_intrinsic_tb w_keyword = [].
 Proof. unfold refutes. repeat match goal with |- _ /\ _ => split end; vm_compute; reflexivity. Qed.
 
 (* ---- repaired in FORD: the former witnesses now come out right (regression inputs) ---- *)
@@ -127,6 +134,13 @@ Definition agrees (tb : symtab) (ss : list stmt) : Prop :=
 
 Theorem fixed_same_last : agrees w_same_last_tb w_same_last /\
   recorded w_same_last_tb (map render_stmt w_same_last) = Some [s "m.t1.run"; s "m.t2.run"].
+Proof. unfold agrees. repeat match goal with |- _ /\ _ => split end; vm_compute; reflexivity. Qed.
+
+Theorem fixed_intrinsic_named : agrees w_intrinsic_tb w_intrinsic /\
+  map render_stmt w_intrinsic = [s "call wait(3)"; s "i = system(2)"] /\
+  unit_raw_calls (map render_stmt w_intrinsic) = Some [] /\
+  unit_named_calls (map render_stmt w_intrinsic) = Some [[s "wait"]; [s "system"]] /\
+  recorded w_intrinsic_tb (map render_stmt w_intrinsic) = Some [s "m.wait"; s "m.system"].
 Proof. unfold agrees. repeat match goal with |- _ /\ _ => split end; vm_compute; reflexivity. Qed.
 
 Theorem fixed_labelled_call : agrees w_labelled_tb w_labelled /\
@@ -160,7 +174,7 @@ Proof. unfold agrees. repeat match goal with |- _ /\ _ => split end; vm_compute;
 Theorem refuted_unresolved_array :
   let ss := [SForm None true (FAssign (ref1 "w" (num "1")) (ref1 "z" (num "2")))] in
   let tb_ford := tb0 [] in
-  let tb_true := tb0 [(s "w", EVar (s "real") true); (s "z", EVar (s "real") true)] in
+  let tb_true := tb0 [(s "w", EVar (s "real") true false); (s "z", EVar (s "real") true false)] in
   forallb wf_stmt ss = true /\ map render_stmt ss = [s "w(1) = z(2)"] /\
   region_unresolved tb_ford tb_true ss = true /\
   recorded tb_ford (map render_stmt ss) = Some [s "w"; s "z"] /\ calls_of tb_true ss = [].
@@ -170,10 +184,10 @@ Proof. cbv zeta. repeat match goal with |- _ /\ _ => split end; vm_compute; refl
 Definition ex_tb : symtab :=
   mk_symtab [(s "f", EFunc (s "m.f") (s "integer")); (s "g", EFunc (s "m.g") (s "integer"));
              (s "sub", EProc (s "m.sub")); (s "t", EProc (s "m.t"));
-             (s "arr", EVar (s "integer") true); (s "sums", EVar (s "integer") true);
-             (s "i", EVar (s "integer") true); (s "x", EVar (s "integer") true);
-             (s "obj", EVar (s "ty") true); (s "ty", EType (s "ty"))]
-            [(s "ty", [(s "items", EVar (s "integer") true); (s "n", EVar (s "integer") true);
+             (s "arr", EVar (s "integer") true false); (s "sums", EVar (s "integer") true false);
+             (s "i", EVar (s "integer") true false); (s "x", EVar (s "integer") true false);
+             (s "obj", EVar (s "ty") true false); (s "ty", EType (s "ty"))]
+            [(s "ty", [(s "items", EVar (s "integer") true false); (s "n", EVar (s "integer") true false);
                        (s "run", EProc (s "m.ty.run")); (s "get", EFunc (s "m.ty.get") (s "integer"))])]
             [(s "ext_fn", s "ext_fn@file")].
 
@@ -216,8 +230,8 @@ Proof. cbv zeta. repeat match goal with |- _ /\ _ => split end; vm_compute; refl
 (* inside the hypothesis of C08_exact since the repairs: labelled CALL without argument list, computed
    GO TO with a reference in its selector, FORMAT without blank, the same binding name on two types *)
 Example exact_repaired_example :
-  let tb := mk_symtab [(s "f", EFunc (s "m.f") (s "integer")); (s "t", EProc (s "m.t")); (s "i", EVar (s "integer") true);
-                       (s "a", EVar (s "t1") true); (s "b", EVar (s "t2") true)]
+  let tb := mk_symtab [(s "f", EFunc (s "m.f") (s "integer")); (s "t", EProc (s "m.t")); (s "i", EVar (s "integer") true false);
+                       (s "a", EVar (s "t1") true false); (s "b", EVar (s "t2") true false)]
                       [(s "t1", [(s "run", EProc (s "m.t1.run"))]); (s "t2", [(s "run", EProc (s "m.t2.run"))])] [] in
   let ss := [SCall (Some (s "10")) (DLast0 (s "t"));
              SGoto [s "10"; s "20"] (ref1 "f" (name "i"));
@@ -236,9 +250,9 @@ Proof. cbv zeta. repeat match goal with |- _ /\ _ => split end; vm_compute; refl
    each of them, END ASSOCIATE restoring the outer meaning *)
 Definition assoc_tb : symtab :=
   mk_symtab [(s "f", EFunc (s "m.f") (s "ty")); (s "g", EFunc (s "m.g") (s "integer")); (s "t", EProc (s "m.t"));
-             (s "arr", EVar (s "integer") true); (s "i", EVar (s "integer") true);
-             (s "obj", EVar (s "ty") true); (s "ty", EType (s "ty"))]
-            [(s "ty", [(s "items", EVar (s "integer") true); (s "inner", EVar (s "ty") true);
+             (s "arr", EVar (s "integer") true false); (s "i", EVar (s "integer") true false);
+             (s "obj", EVar (s "ty") true false); (s "ty", EType (s "ty"))]
+            [(s "ty", [(s "items", EVar (s "integer") true false); (s "inner", EVar (s "ty") true false);
                        (s "run", EProc (s "m.ty.run")); (s "get", EFunc (s "m.ty.get") (s "integer"))])] [].
 
 Definition assoc_unit : list stmt :=
@@ -265,3 +279,14 @@ Example exact_assoc_example :
           [s "t"]; [s "obj"; s "inner"; s "get"]; [s "aa"]] /\
   recorded assoc_tb (map render_stmt assoc_unit) = Some [s "m.f"; s "m.ty.run"; s "m.ty.get"; s "m.g"; s "m.t"; s "aa"].
 Proof. repeat match goal with |- _ /\ _ => split end; vm_compute; reflexivity. Qed.
+
+(* repaired: a plain scalar followed by "(" is a function reference (the declaration gives the result
+   type of an external function; inside a function, its own result variable) *)
+Example fixed_typed_external :
+  let tb := mk_symtab [(s "ef", EVar (s "integer") true true); (s "i", EVar (s "integer") true true);
+                       (s "arr", EVar (s "integer") true false)] [] [(s "ef", s "@ef")] in
+  recorded tb [s "i = ef(3) + arr(2)"] = Some [s "@ef"] /\
+  (let tbf := mk_symtab [(s "fact", EFunc (s "@m.fact") (s "integer")); (s "n", EVar (s "integer") true false);
+                         (s "fact", EVar (s "integer") true true)] [] [] in
+   recorded tbf [s "fact = n * fact(n - 1)"] = Some [s "@m.fact"]).
+Proof. cbv zeta. split; vm_compute; reflexivity. Qed.
